@@ -90,6 +90,15 @@ class Recorder(object):
             kw = {}
             if 'breaking' in spec:
                 kw['is_breaking'] = spec['breaking']
+            if spec.get('exc_info') and issubclass(cls, cerrors.InternalServerError):
+                # application code attaching what went wrong, as the framework's own handlers do: an ExceptionInfo
+                # (other values for this undocumented argument are not generated)
+                try:
+                    raise LookupError('the backend said no')
+                except LookupError:
+                    from boltons.tbutils import ExceptionInfo, ContextualExceptionInfo
+                    it = ContextualExceptionInfo if issubclass(cls, cerrors.ContextualInternalServerError) else ExceptionInfo
+                    kw['exc_info'] = it.from_current()
             e = cls(detail=msg, **kw)
         else:
             e = EXC_TYPES[kind](msg)
@@ -120,7 +129,8 @@ class Recorder(object):
             return self.new([1, 2], 'list:' + who)
         if v.startswith('http:'):
             return self.make_exc({'exc': v, 'msg': spec.get('msg', 'returned-%s' % who),
-                                  **({'breaking': spec['breaking']} if 'breaking' in spec else {})}, who)
+                                  **({'breaking': spec['breaking']} if 'breaking' in spec else {}),
+                                  **({'exc_info': spec['exc_info']} if 'exc_info' in spec else {})}, who)
         raise ValueError('unknown value kind %r' % v)
 
     def layer(self, name, nxt, kwargs, provides):
